@@ -112,8 +112,9 @@ def _CALC(KK, psii, Nt, Nref, L, dt, out):
     
     """
     
+    # (psi2 is accumulated into in place: it must not be the caller's array)
     psi1 = psii
-    psi2 = psii
+    psi2 = numpy.array(psii)
     
     indx = 1
     for ii in range(1, Nt):
